@@ -33,7 +33,7 @@ import (
 
 func TestMain(m *testing.M) {
 	bk.SetupEnv()
-	ev.C().Rule("fault enumeration + rapid: per HTTP backend variant (datadog, influxdb v1/v2, newrelic infra/insights/metrics, otlp, cloudwatch) every per-attempt outcome script of length <= 3 over {2xx, error status, transport error, 429 with Retry-After} x tail {recovers, keeps failing / keeps being throttled until the retry window ends} x batches per flush {0,1,3} x cancellation point {none, before the call, when the k-th attempt starts, while an attempt waits for its retry timer}, on a mock clock advanced whenever no callback has arrived; then random longer scripts, partly through a real MetricFlusher; sender.Sender with scripted connect/write outcomes; graphite and statsdaemon against loopback listeners (accepting, closing, absent). Oracle: exactly one callback per request, an error whenever some batch's last attempt failed, no panic, the following request completes. Non-trivial = fail->success across a retry/reconnect, or a cancellation with a batch outstanding")
+	ev.C().Rule("fault enumeration + rapid: per HTTP backend variant (datadog, influxdb v1/v2, newrelic infra/insights/metrics, otlp, cloudwatch) every per-attempt outcome script of length <= 3 over {2xx, error status, transport error, 429 with Retry-After, error status whose body cannot be read} x tail {recovers, keeps failing / keeps being throttled until the retry window ends} x batches per flush {0,1,3} x cancellation point {none, before the call, when the k-th attempt starts, while an attempt waits for its retry timer}, on a mock clock advanced whenever no callback has arrived; then random longer scripts, partly through a real MetricFlusher; sender.Sender with scripted connect/write outcomes; graphite and statsdaemon against loopback listeners (accepting, closing, absent). Oracle: exactly one callback per request, an error whenever some batch's last attempt failed, no panic, the following request completes. Non-trivial = fail->success across a retry/reconnect, or a cancellation with a batch outstanding")
 	vt.Main(m)
 }
 
@@ -44,11 +44,14 @@ const (
 	status5xx
 	transportErr
 	throttled // 429 with a Retry-After header
+	status5xxCut // error status whose response body cannot be read to its end
 )
 
-func (o outcomeT) String() string { return [...]string{"2xx", "5xx", "neterr", "429+retry-after"}[o] }
+func (o outcomeT) String() string {
+	return [...]string{"2xx", "5xx", "neterr", "429+retry-after", "5xx+body-cut"}[o]
+}
 
-var allOutcomes = []outcomeT{ok, status5xx, transportErr, throttled}
+var allOutcomes = []outcomeT{ok, status5xx, transportErr, throttled, status5xxCut}
 
 type cancelPoint int
 
@@ -159,6 +162,8 @@ func runFlush(kit *bk.Kit, c faultCase, base int) result {
 		switch o {
 		case status5xx:
 			return fakes.Reply{Status: 503, Body: []byte("scripted failure")}
+		case status5xxCut:
+			return fakes.Reply{Status: 503, Body: []byte("scripted fail"), BodyErr: true}
 		case transportErr:
 			return fakes.Reply{Err: fakes.ErrTransport}
 		case throttled:
@@ -380,7 +385,7 @@ func TestHTTPFaultsRandom(t *testing.T) {
 		var descs []string
 		nt := false
 		for f := 0; f < flushes; f++ {
-			tl := rapid.SampledFrom([]outcomeT{ok, ok, status5xx, transportErr, throttled}).Draw(t, "tail")
+			tl := rapid.SampledFrom([]outcomeT{ok, ok, status5xx, transportErr, throttled, status5xxCut}).Draw(t, "tail")
 			c := faultCase{variant: variant, tailOK: tl == ok, tail: tl, series: rapid.SampledFrom([]int{0, 1, 2, 3, 5}).Draw(t, "series"),
 				cancel: cancelPoint(rapid.IntRange(0, 4).Draw(t, "cancel"))}
 			c.script = make([]outcomeT, rapid.IntRange(0, 8).Draw(t, "script-len"))
@@ -441,6 +446,8 @@ func flushThroughFlusher(t vt.TB, kit *bk.Kit, c faultCase) result {
 		switch o {
 		case status5xx:
 			return fakes.Reply{Status: 503}
+		case status5xxCut:
+			return fakes.Reply{Status: 503, Body: []byte("scripted fail"), BodyErr: true}
 		case transportErr:
 			return fakes.Reply{Err: fakes.ErrTransport}
 		case throttled:
